@@ -60,6 +60,7 @@ func (p *c15) Cases(tier string, emit func(interface{})) {
 	emit(c15Case{Part: "lists", Schema: "base"})
 	emit(c15Case{Part: "funcs", Schema: "base"})
 	emit(c15Case{Part: "binarylist", Schema: "types"})
+	emit(c15Case{Part: "anydata-selection", Schema: "types"})
 	emit(c15Case{Part: "faults", Schema: "base"})
 	emit(c15Case{Part: "faults", Schema: "types"})
 	emit(c15Case{Part: "deep", Schema: "deep"})
@@ -640,6 +641,9 @@ func (p *c15) Run(raw json.RawMessage) eng.Result {
 			c15Tree(c, m, t, "tree two", &res, ss, starts, []string{"compact", "pretty+enumids+qualified"}, fn)
 		}
 		res.Outcomes = []string{"funcs"}
+	case "anydata-selection":
+		c15AnySelection(&res, ss)
+		res.Outcomes = []string{"anydata-selection"}
 	case "binarylist":
 		// the library's own list type for binary values, as a node may hand it to the writer
 		for _, bl := range []val.BinaryList{{{1, 2, 3}}, {{255}, {}, {0, 16, 32, 48}}, {}} {
@@ -830,4 +834,63 @@ func c15Deep(c c15Case) eng.Result {
 		}
 	}
 	return res
+}
+
+// c15AnySelection: the value of an anydata is a selection into another tree (val.Any{Thing: node.Selection}):
+// the nested document is written under the same configuration as the one around it.
+func c15AnySelection(res *eng.Result, ss *sigSet) {
+	inner := model.LoadText(`module inner { namespace "urn:i"; prefix i; revision 0; leaf e { type enumeration { enum zero; enum one { value 7; } } } container c { leaf x { type string; } leaf-list es { type enumeration { enum p; enum q { value 4; } } } } }`)
+	outer := model.LoadText(`module outer { yang-version 1.1; namespace "urn:o"; prefix o; revision 0; anydata a; leaf after { type string; } }`)
+	in, err := nodeutil.ReadJSON(`{"e":"one","c":{"x":"y","es":["q","p"]}}`)
+	if err != nil {
+		panic(err)
+	}
+	isel := node.NewBrowser(inner, in).Root()
+	root := &nodeutil.Basic{OnField: func(r node.FieldRequest, hnd *node.ValueHandle) error {
+		if r.Meta.Ident() == "a" {
+			hnd.Val = val.Any{Thing: *isel}
+		} else {
+			hnd.Val = val.String("z")
+		}
+		return nil
+	}}
+	for bits := 0; bits < 8; bits++ {
+		pretty, ids, qual := bits&1 != 0, bits&2 != 0, bits&4 != 0
+		var buf bytes.Buffer
+		w := &nodeutil.JSONWtr{Out: &buf, Pretty: pretty, EnumAsIds: ids, QualifyNamespace: qual}
+		var werr error
+		fr, msg, pan := eng.Recover(func() { werr = node.NewBrowser(outer, root).Root().UpsertInto(w.Node()) })
+		res.Evals++
+		res.Nontriv++
+		site := fmt.Sprintf("C15/anydata-selection/pretty=%v,enumids=%v,qualified=%v", pretty, ids, qual)
+		if pan {
+			ss.add(site+"/panic:"+fr, msg)
+			continue
+		}
+		if werr != nil {
+			ss.add(site+"/error", werr.Error())
+			continue
+		}
+		var doc map[string]interface{}
+		dec := json.NewDecoder(bytes.NewReader(buf.Bytes()))
+		dec.UseNumber()
+		if err := dec.Decode(&doc); err != nil {
+			ss.add(site+"/not-json", buf.String())
+			continue
+		}
+		name := func(mod, id string) string {
+			if qual {
+				return mod + ":" + id
+			}
+			return id
+		}
+		wantE, wantEs := interface{}("one"), []interface{}{"q", "p"}
+		if ids {
+			wantE, wantEs = json.Number("7"), []interface{}{json.Number("4"), json.Number("0")}
+		}
+		want := map[string]interface{}{name("outer", "a"): map[string]interface{}{name("inner", "e"): wantE, name("inner", "c"): map[string]interface{}{"x": "y", "es": wantEs}}, name("outer", "after"): "z"}
+		if model.CanonAny(doc) != model.CanonAny(want) {
+			ss.add(site+"/nested-document-differs", fmt.Sprintf("wrote %s", buf.String()))
+		}
+	}
 }
